@@ -22,6 +22,7 @@ pub struct Ipv4Header {
     checksum: u16,
     source: Ipv4Address,
     destination: Ipv4Address,
+    options: Vec<u8>,
 }
 
 #[derive(Debug)]
@@ -72,17 +73,15 @@ impl Ipv4Packet {
         let checksum = ((rawdata[off + 10] as u16) << 8) | (rawdata[off + 11] as u16);
         let source = Ipv4Address::from_bytes(&rawdata[(off + 12)..(off + 16)]);
         let destination = Ipv4Address::from_bytes(&rawdata[(off + 16)..(off + 20)]);
-        // Handle ipv4 options
-        let mut options = Vec::new();
-        if ihl > 5 {
-            let mut i: usize = 20;
-            while i < ihl as usize * 4 {
-                options.push(rawdata[off + i]);
-                i += 1;
-            }
+        // The header length is given by the IHL field but is never less than
+        // the basic header. The options, if any, follow the basic header.
+        let hdr_len = std::cmp::max(ihl as usize * 4, IPV4_HEADER_SIZE);
+        if rawdata.len() < off + hdr_len {
+            return Err(PacketError::InvalidLength(rawdata.len()));
         }
+        let options = rawdata[off + IPV4_HEADER_SIZE..off + hdr_len].to_vec();
         //  offset of payload
-        let offset = off + ihl as usize * 4;
+        let offset = off + hdr_len;
 
         let header = Ipv4Header {
             version,
@@ -98,6 +97,7 @@ impl Ipv4Packet {
             checksum,
             source,
             destination,
+            options,
         };
         Ok(Self {
             header: RefCell::new(header),
@@ -325,6 +325,7 @@ impl From<&Ipv4Header> for Vec<u8> {
         bytes.extend_from_slice(&b);
         let b: Vec<u8> = (&hdr.destination).into();
         bytes.extend_from_slice(&b);
+        bytes.extend_from_slice(&hdr.options);
         bytes
     }
 }
